@@ -213,6 +213,7 @@ static void run_case (int format, int ch, int mask, int late_mask, int order_see
 	if (!s) { vh_viol (vh_key ("C12|reopen-failed|%s%s|mask%d", fn, q, mask), "items %d, late items %d: %s", mask, late_mask, sf_strerror (NULL)) ; goto out ; }
 	back = vh_guard_alloc (2 * (N + 4) * ch, 0) ; fb = malloc (4 * (N + 4) * ch) ;
 	{	sf_count_t g = fp ? sf_readf_float (s, fb, N + 4) : sf_readf_short (s, back, N + 4) ; if (fp) for (i = 0 ; i < N * ch ; i++) back [i] = (short) fb [i] ;
+		if (g == N + 1 && (vh_bits (format) == 8 || vh_is_g711 (format & SF_FORMAT_SUBMASK)) && ch == 1 && (N & 1)) { g = N ; vh_stat ("pad_frame_of_an_odd_one_byte_stream", 1) ; }	/* see C04: a container may pad an odd byte count */
 		if (g != N || memcmp (back, audio, 2 * N * ch)) vh_viol (vh_key ("C12|audio-damaged|%s%s%s", fn, q, lq), "items %d, late items %d: %lld frames read (wrote %d)%s", mask, late_mask, (long long) g, N, g == N ? ", data differs" : "") ;
 		else vh_stat ("audio_intact", 1) ; }
 	free (back) ; free (fb) ;
